@@ -182,6 +182,8 @@ pub fn check(c: &Case, rec: &mut Rec) -> Result<(), String> {
     m.bus.t = start_t;
     e.debug_interface().unwrap().mode = BpMode::Never;
     let frames0 = e.verif_total_frames();
+    let tb = crate::e2::TimeBase { emu_frames0: frames0, frame_len };
+    // model time origin: frame 0 T 0 of the emulator's current frame
     let mut target = 0u64;
     let mut straddles = 0u64;
     let mut groups = 0u64;
@@ -189,12 +191,14 @@ pub fn check(c: &Case, rec: &mut Rec) -> Result<(), String> {
         e.set_speed(EmulationMode::FrameCount(*n as usize));
         e.emulate_frames(LONG).map_err(|x| format!("emulate_frames: {:?}", x))?;
         target += *n as u64;
-        // model: the same number of frame ends, stopping at the boundary of the emulate() call
-        // that crossed the last one
+        // model: run to the emulator's position. The emulator returns at some instruction boundary
+        // after the n-th frame end (which one is emulate()'s business); the model steps up to the
+        // same emulated time and, if the boundaries do not coincide, both sides catch up.
+        let et = tb.emu_t(&e);
         let mut guard = 0u64;
-        while m.bus.frames() < target {
+        while m.bus.t < et {
             let f0 = m.bus.frames();
-            let info = m.step_group();
+            let info = m.step_fine();
             groups += 1;
             if m.bus.frames() > f0 {
                 let over = m.bus.frame_t();
@@ -203,13 +207,20 @@ pub fn check(c: &Case, rec: &mut Rec) -> Result<(), String> {
                 }
                 rec.class(&format!("overrun-{}", over.min(40)));
             }
-            if info.kind == StepKind::HaltCycle {
-                // fast-forward is not used: every HALT refetch is stepped, as the CPU does
-            }
+            let _ = info;
             guard += 1;
-            if guard > 40_000_000 {
-                return Err("model did not reach the frame target".into());
+            if guard > 80_000_000 {
+                return Err("model did not reach the emulator's position".into());
             }
+        }
+        if m.bus.t != et {
+            let _ = m.catch_up(&mut e, &tb);
+        }
+        if tb.emu_t(&e) < target * frame_len || tb.emu_t(&e) >= (target + 1) * frame_len {
+            return Err(format!(
+                "after call {} (FrameCount({})) the emulator stands at T {} since the start; {} frames of {} T end at {}",
+                k, n, tb.emu_t(&e), target, frame_len, target * frame_len
+            ));
         }
         rec.eval();
         let got_frames = e.verif_total_frames() - frames0;
@@ -296,11 +307,15 @@ pub fn check_edge(c: &Edge, rec: &mut Rec) -> Result<(), String> {
     let mut m = RefMachine::new(mem);
     set_ref(&mut m.cpu, &CpuState { regs, memptr: 0, q_is_f: false, halted: c.halted, no_int: false });
     m.bus.t = t;
-    let f0 = e.verif_total_frames();
+    let tb = crate::e2::TimeBase::new(&e, machine);
     mach::single_step(&mut e)?;
     m.step_group();
+    if tb.emu_t(&e) != m.bus.t {
+        // different grouping of interrupt entry / prefixes inside emulate(): common boundary
+        let _ = m.catch_up(&mut e, &tb);
+    }
     rec.eval();
-    let got_t = (e.verif_total_frames() - f0) * frame_len + e.verif_frame_clocks() as u64;
+    let got_t = tb.emu_t(&e);
     let got = mach::get_regs(&mut e);
     let want = crate::e1::get_ref_regs(&m.cpu);
     let expect_int = t < 32;
